@@ -1766,10 +1766,22 @@ def c10c(chk):
         return
     cs = an.calls(f, SUMMARIZE)
     ok = False
+    why_s = "summarize_skipped must dominate the construction of Ok(scs)"
     for b, i, p, rv, st in f.assigns():
         if p[0] == 0 and rv["k"] == "aggregate" and rv.get("variant") == "Ok":
             ok = len(cs) >= 1 and any(f.dominates(cb, b) for cb, _ in cs)
-    chk.ob("C10.c", "Runner::run/summary-before-Ok", ok, f.loc(), "summarize_skipped must dominate the construction of Ok(scs)")
+            if not cs and s is f:
+                # the summary was merged into run: the message showing skipped and sites sits here, and every way to Ok(scs) passes the
+                # place that decides whether to print it (a test of self.skipped) after the record loop
+                fm = [fb for fb, pieces, phs, t in an.format_calls(f) if {"field:skipped", "field:sites"} <= fmt_arg_sources(f, t)]
+                tests = []
+                for sb, stt in f.switches():
+                    sl_, info_ = f.slice_locals(stt["discr"])
+                    if (RUNNER_STRUCT, "skipped") in info_["fields"] and not f.reaches(sb, sb):
+                        tests.append(sb)
+                ok = bool(fm) and any(f.dominates(sb, b) and all(fb in f.reachable_from(sb) for fb in fm) for sb in tests)
+                why_s = "the summary (merged into run) is decided on every path to Ok(scs): %s" % ok
+    chk.ob("C10.c", "Runner::run/summary-before-Ok", ok, f.loc(), why_s)
     good = False
     for b, pieces, phs, t in an.format_calls(s):
         srcs = fmt_arg_sources(s, t)
@@ -1829,7 +1841,9 @@ def no_partial_output(chk, rule, fn_path, producer, writers):
     chk.ob(rule, "%s/success-always-writes" % short, not silent, f.loc(pb),
            "every successful path from the producer to `return` passes the writer (a conditional or skipped write would print nothing and exit 0); silent returns reachable: %s" % [f.loc(b) for b in silent])
     # the Break edge of the producer does not reach a writer
-    br = f.reachable_from(brk)
+    # (a failure handed on as a value by an inlined helper and re-raised with `?` by the caller: the success edge of that second `?`
+    # is not a path from here)
+    br = an.reachable_with_edges_removed(f, brk, set(), an.infeasible_edges_from(f, brk, None))
     chk.ob(rule, "%s/failed-producer-writes-nothing" % short, not any(wb in br for wb, _ in ws), f.loc(pb), "the error edge of the producer must not reach the writer")
 
 
